@@ -632,7 +632,18 @@ def rule_R09_6(ctx, rule_id="R09.6"):
             else:
                 r.ok()
     r.inst("stores into an `Option<char>` field of a lexer struct: %d" % n)
-    r.require_floor("stores into the scanner's current-character field", n, 1)
+    holders = [path for path, a in prog.adts.items()
+               if (a.get("module") or "").startswith("lexer")
+               and any(fl.get("ty") == "std::option::Option<char>"
+                       for v in a.get("variants", []) for fl in v.get("fields", []))]
+    if holders:
+        r.require_floor("stores into the current-character field of %s" % ", ".join(sorted(holders)), n, 1)
+    else:
+        # a scanner that keeps no current character (it peeks its iterator)
+        # has no slot a fabricated character could be put into
+        r.notes.append("no lexer struct keeps a current character (`Option<char>` field): nothing to store into")
+        if not r.violations:
+            r.ok()
     return r
 
 
